@@ -667,20 +667,25 @@ theorem not_isEmpty_of_lt {a b : Bytes} (hab : cmp a b = .lt) : b.isEmpty = fals
 theorem doList_unlimited (c : Cfg) (hsplit : c.splits = []) (s : BState) {recs : List Rec}
     (hstore : s.store = encodeStore recs) (hk : ∀ r ∈ recs, Alphabet r.key ∧ r.rev < 2 ^ 64)
     {a b : Bytes} (ha : Alphabet a) (hb : Alphabet b) (hab : cmp a b = .lt) (R : Nat) :
-    doList c s a b R 0 = .ok { hdr := s.committed, more := false, kvs := scanRecs (if R == 0 then s.committed else R) (recs.filter (inRange a b)) } := by
+    doList c s a b R 0 =
+      .ok { hdr := hdrOf s.committed (scanRecs (if R == 0 then s.committed else R) (recs.filter (inRange a b))),
+            more := false,
+            kvs := scanRecs (if R == 0 then s.committed else R) (recs.filter (inRange a b)) } := by
   simp [doList, not_isEmpty_of_lt hab, hab, hstore, scanParts_encodeStore c hsplit hk ha hb hab]
 
 theorem doList_limited (c : Cfg) (s : BState) {recs : List Rec}
     (hstore : s.store = encodeStore recs) (hk : ∀ r ∈ recs, Alphabet r.key ∧ r.rev < 2 ^ 64)
     {a b : Bytes} (ha : Alphabet a) (hb : Alphabet b) (hab : cmp a b = .lt) (R : Nat) {n : Nat} (hn : 0 < n) :
-    doList c s a b R n = .ok { hdr := s.committed, more := decide (n < (scanRecs (if R == 0 then s.committed else R) (recs.filter (inRange a b))).length), kvs :=
-        (scanRecs (if R == 0 then s.committed else R) (recs.filter (inRange a b))).take n } := by
+    doList c s a b R n =
+      .ok { hdr := hdrOf s.committed ((scanRecs (if R == 0 then s.committed else R) (recs.filter (inRange a b))).take n),
+            more := decide (n < (scanRecs (if R == 0 then s.committed else R) (recs.filter (inRange a b))).length),
+            kvs := (scanRecs (if R == 0 then s.committed else R) (recs.filter (inRange a b))).take n } := by
   simp only [doList, not_isEmpty_of_lt hab, hab, hstore, scanLimited_encodeStore c hk ha hb hab]
+  have hmin : min n (n + 1) = n := by omega
   simp only [Bool.false_eq_true, if_false, bne_self_eq_false, gt_iff_lt, hn, if_true, List.length_take,
-    List.take_take]
+    List.take_take, hmin]
   congr 2
-  · apply decide_eq_decide.mpr; omega
-  · congr 1; omega
+  apply decide_eq_decide.mpr; omega
 
 theorem doCount_encodeStore (c : Cfg) (hsplit : c.splits = []) (hcompat : c.etcdCompat = true) (s : BState)
     {recs : List Rec} (hstore : s.store = encodeStore recs) (hk : ∀ r ∈ recs, Alphabet r.key ∧ r.rev < 2 ^ 64)
